@@ -124,3 +124,7 @@ package openapi3
 //@   fresh
 //@   ensures result != nil && result.Value == schema && result.Ref == ""
 //@   tag C16
+
+// Descent completeness: internalisation reads every field of the document types that can hold a
+// reference wrapper (a field it never reads is a position whose references stay external).
+//@ refwalk @C16 (*T).InternalizeRefs : SchemaRef, ParameterRef, HeaderRef, RequestBodyRef, ResponseRef, SecuritySchemeRef, ExampleRef, LinkRef, CallbackRef, MediaType, Encoding, Operation, PathItem, Responses, Paths, Components
